@@ -24,6 +24,9 @@
    | join a b  (@templ.Join(a, b)) | hcb n a  (@hand { @a } where hand is a HAND-WRITTEN component that
    renders templ.GetChildren(ctx): n = 0 into the writer it was given, n = 1 into a writer of its own
    -- a collector that may fail -- and then forwards what that writer received);
+   X n  an expression of one of the other KINDS the generator has a separate error path for, with the literal
+   text around it: n = 1  <i title={ e }></i>  (attribute), 2  <script>var x = {{ e }}</script>  (script, outside
+   a string literal), 3  <script>var y = "{{ e }}"</script>  (script, inside a string literal);
    "kids"/"bflush" are the two steps of templ.Flush, "okids"/"fwd" those of the collecting component.
 
    Every frame knows the io.Writer it was called with (a *runtime.Buffer of the render, or a plain
@@ -36,6 +39,7 @@ EXTENDS Integers, Sequences, FiniteSets, TLC, Json
 CONSTANTS Caps,        \* buffer capacities explored (runtime.DefaultBufferSize)
           ProgSet,     \* programs explored (MC: every program of the grammar up to MaxOps/MaxDepth)
           MaxOps, MaxDepth, LitSizes, ExprSizes, LeafSizes,
+          XKinds,      \* expression kinds besides the text expression: subset of {1, 2, 3} (see X above)
           HandKinds,   \* hand-written callees of a call with block: subset of {0, 1} (see hcb above)
           SideKs,      \* offsets at which the collecting component's own writer fails
           Runs,        \* renders per behaviour: all but the last must be given a fault, the last none (Runs > 1)
@@ -72,6 +76,7 @@ Nil == <<>>
 
 LeafOps == {Op("L", n, Nil, Nil) : n \in LitSizes} \cup {Op("E", n, Nil, Nil) : n \in ExprSizes}
            \cup {Op("leaf", n, Nil, Nil) : n \in LeafSizes} \cup {Op("slot", 0, Nil, Nil)}
+           \cup {Op("X", n, Nil, Nil) : n \in XKinds}
 
 RECURSIVE Seqs(_, _)
 OpsOfSize(d, s) ==
@@ -94,10 +99,22 @@ NoNestedOwn(ops) == \A i \in 1..Len(ops) :
                        /\ NoNestedOwn(ops[i].a) /\ NoNestedOwn(ops[i].b)
 GrammarProgs == {p \in UNION {Seqs(MaxDepth, n) : n \in 1..MaxOps} : NoNestedOwn(p)}
 
+\* the other expression kinds: literal before, value as the generated code writes it, literal after
+XPre(n)  == CASE n = 1 -> <<"<","i"," ","t","i","t","l","e","=","\"">>
+              [] n = 2 -> <<"<","s","c","r","i","p","t",">","v","a","r"," ","x"," ","="," ">>
+              [] n = 3 -> <<"<","s","c","r","i","p","t",">","v","a","r"," ","y"," ","="," ","\"">>
+XVal(n)  == CASE n = 1 -> <<"A">> [] n = 2 -> <<"\"","A","\"">> [] n = 3 -> <<"A">>
+XPost(n) == CASE n = 1 -> <<"\"",">","<","/","i",">">>
+              [] n = 2 -> <<"<","/","s","c","r","i","p","t",">">>
+              [] n = 3 -> <<"\"","<","/","s","c","r","i","p","t",">">>
+\* an X op is executed as: literal, expression (evaluate, error handler, write), literal
+Expansion(o) == <<Op("Lx", o.n, Nil, Nil), Op("E", 10 + o.n, Nil, Nil), Op("Lx", 20 + o.n, Nil, Nil)>>
 Chars == <<"a", "b", "c", "d", "e", "f", "g", "h", "i", "j", "k">>
 LitText(n) == CASE n = 1 -> SubSeq(Chars, 1, 1) [] n = 2 -> SubSeq(Chars, 2, 3)
                 [] n = 3 -> SubSeq(Chars, 4, 6) [] n = 5 -> SubSeq(Chars, 7, 11)
 ExprText(n) == CASE n = 1 -> <<"A">> [] n = 2 -> <<"B", "C">> [] n = 4 -> <<"D", "E", "F", "G">>
+                 [] n > 10 -> XVal(n - 10) [] n = 0 -> <<>>
+LxText(n) == IF n > 20 THEN XPost(n - 20) ELSE XPre(n)
 LeafText(n) == SubSeq(<<"w", "x", "y", "z">>, 1, n)
 
 NoChild == [has |-> FALSE, body |-> Nil]
@@ -117,6 +134,7 @@ DOps(ops, mine, s) ==
              h == CASE o.k = "L"    -> [out |-> LitText(o.n), slot |-> s, ne |-> 0, nl |-> 0]
                     [] o.k = "E"    -> [out |-> ExprText(o.n), slot |-> s, ne |-> 1, nl |-> 0]
                     [] o.k = "leaf" -> [out |-> LeafText(o.n), slot |-> s, ne |-> 0, nl |-> 1]
+                    [] o.k = "X"    -> [out |-> XPre(o.n) \o XVal(o.n) \o XPost(o.n), slot |-> s, ne |-> 1, nl |-> 0]
                     [] o.k = "call" -> DInterp(o.a, s)
                     [] o.k = "cb"   -> DInterp(o.a, Block(o.b))
                     [] o.k = "slot" -> IF mine.has THEN DInterp(mine.body, s) ELSE DEmpty(s)
@@ -130,6 +148,7 @@ RECURSIVE MaxWrite(_)
 MaxWrite(ops) == IF ops = <<>> THEN 0
                  ELSE LET o == Head(ops)
                           m == IF o.k \in {"L", "E", "leaf"} THEN o.n
+                               ELSE IF o.k = "X" THEN Len(XPre(o.n))
                                ELSE LET x == MaxWrite(o.a) y == MaxWrite(o.b) IN IF x > y THEN x ELSE y
                           r == MaxWrite(Tail(ops))
                       IN IF m > r THEN m ELSE r
@@ -308,9 +327,16 @@ ApplyWrite(r) == /\ bufs' = [bufs EXCEPT ![Top.fb] = r.bs]
                  /\ W' = [W EXCEPT ![bufs[Top.fb].wr] = r.ws]
 
 \* templruntime.WriteString(buffer, i, "literal"); if err != nil { return err }
+\* an X op: literal, expression, literal (bookkeeping step, nothing happens in the code)
+Expand ==
+    /\ AtOp("X")
+    /\ stack' = SetTop([Top EXCEPT !.ops = Expansion(O) \o Tail(@)])
+    /\ lbl' = "Expand"
+    /\ UNCH(<<pev, cfg, run, phase, plan, ret, bufs, cur, pool, nfresh, W, slot, cancelled, evals, leafs, first, late, hist>>)
+
 WriteLit ==
-    /\ AtOp("L")
-    /\ LET r == DoWrite(LitText(O.n), cfg.sw) IN
+    /\ (AtOp("L") \/ AtOp("Lx"))
+    /\ LET r == DoWrite(IF O.k = "L" THEN LitText(O.n) ELSE LxText(O.n), cfg.sw) IN
        /\ ApplyWrite(r)
        /\ IF r.err # "nil" /\ Bug # "nochecklit"
           THEN stack' = SetTop(Fail(Top, r.err))
@@ -325,7 +351,12 @@ EvalExpr ==
     /\ evals' = evals + 1
     /\ late' = (late \/ first # "nil")
     /\ IF plan.l.k = "expr" /\ plan.l.j = evals + 1
-       THEN /\ stack' = SetTop(Fail(Top, "expr")) /\ first' = First("expr") /\ UNCH(cancelled)
+       THEN IF Bug = "noexprcheckinlit" /\ O.n = 13
+            \* no error handler for a script expression inside a string literal: the error is overwritten by the
+            \* result of the write of the (empty) value that follows
+            THEN /\ stack' = SetTop([Top EXCEPT !.pc = "wexpr", !.ops = <<Op("E", 0, Nil, Nil)>> \o Tail(@)])
+                 /\ UNCH(<<first, cancelled>>)
+            ELSE /\ stack' = SetTop(Fail(Top, "expr")) /\ first' = First("expr") /\ UNCH(cancelled)
        ELSE /\ stack' = SetTop([Top EXCEPT !.pc = "wexpr"]) /\ UNCH(first)
             /\ cancelled' = (cancelled \/ (plan.l.k = "cancelat" /\ plan.l.j = evals + 1))
     /\ lbl' = "EvalExpr"
@@ -473,7 +504,7 @@ EndRender ==
     /\ lbl' = "EndRender"
     /\ UNCH(<<pev, cfg, plan, stack, ret, bufs, cur, pool, nfresh, W, slot, cancelled, evals, leafs, first, late>>)
 
-Next == \/ StartRender \/ CtxCheck \/ AcquireBuffer \/ ReadChildren \/ WriteLit \/ EvalExpr \/ WriteExpr
+Next == \/ StartRender \/ Expand \/ CtxCheck \/ AcquireBuffer \/ ReadChildren \/ WriteLit \/ EvalExpr \/ WriteExpr
         \/ CallLeaf \/ EnterCall \/ RenderChildren \/ FlushOp \/ Forward \/ ReturnCall \/ ReturnNil \/ Exit
         \/ DeferredFlush \/ DeferredPut \/ EndRender
 
